@@ -173,7 +173,7 @@ type caseC13sel struct {
 	Prior SV     `json:"prior"`
 	NilU  bool   `json:"nil_u,omitempty"`
 	NilV  bool   `json:"nil_v,omitempty"`
-	Alias int    `json:"alias,omitempty"` // 0 none, 1 receiver is u, 2 receiver is v
+	Alias int    `json:"alias,omitempty"` // 0 none, 1 receiver is u, 2 receiver is v, 3 u and v are the same object, 4 all three are
 }
 
 var condWords = []uint64{0, 1, 2, 3, 4, 0xff, 1 << 31, 1 << 32, 1 << 63, ^uint64(0), ^uint64(0) - 1, 0x5555555555555555, 0xaaaaaaaaaaaaaaaa}
@@ -197,6 +197,10 @@ var c13sel = gen.Register(&gen.Check[caseC13sel]{
 			c.Alias = 1
 		case 3:
 			c.Alias = 2
+		case 4:
+			c.Alias = 3
+		case 5:
+			c.Alias = 4
 		}
 		return c
 	},
@@ -217,6 +221,11 @@ var c13sel = gen.Register(&gen.Check[caseC13sel]{
 			r, vp = u, vu
 		case 2:
 			r, vp = v, vv
+		case 3:
+			v, vv = u, vu
+		case 4:
+			v, vv = u, vu
+			r, vp = u, vu
 		}
 		o.ClassIf(c.Cond == 0, "cond=0")
 		o.ClassIf(c.Cond == 1, "cond=1")
@@ -249,7 +258,7 @@ var c13sel = gen.Register(&gen.Check[caseC13sel]{
 		if e := checkScalar("CSelect", r, want); e != nil {
 			return gen.Fail("CSelect", "cond=%#x u=%x v=%x: %v", c.Cond, vu, vv, e)
 		}
-		if (c.Alias != 1 && u.S != u0) || (c.Alias != 2 && v.S != v0) {
+		if (c.Alias != 1 && c.Alias != 4 && u.S != u0) || (c.Alias == 0 && v.S != v0) {
 			return gen.Fail("CSelect/mutates-operand", "an operand changed")
 		}
 		return nil
